@@ -107,6 +107,14 @@ def r7_expressions_survive(ctx):
     ctx.floor("parameter value writes in the fitter", n, 2)
 
 
+def r8_results_from_one_fit(ctx):
+    """parameters, chi-square, success flag, hash and the result columns
+    come from one and the same fit: fit_properties are replaced as a whole
+    only where the columns are written as well (fit_model)"""
+    from .c03 import r3_bypass_writers
+    r3_bypass_writers(ctx)
+
+
 RULES = [
     ("C04-R1", "NaN unless written; success flag matches the branch",
      fitclauses.clause_nan_unless_written),
@@ -126,4 +134,6 @@ RULES = [
     ("C04-R7", "expression constraints survive the way to the optimiser: "
      "the fitter writes the value of contact_point only",
      r7_expressions_survive),
+    ("C04-R8", "fit properties are replaced wholesale only together with "
+     "the result columns", r8_results_from_one_fit),
 ]
